@@ -743,6 +743,12 @@ func (ss schedsim) backup(m *mtWorld, e *work.Exec, ci, si int, st *work.Step, t
 		fail("copy-undecodable", "no valid meta in the copy")
 		return
 	}
+	for mi := 0; mi < 2; mi++ {
+		if !im.Metas[mi].Valid {
+			fail("copy-meta-invalid", "meta page %d of the copy does not validate (%s): a copy must be a complete, valid database file", mi, im.Metas[mi].Why)
+			return
+		}
+	}
 	res := im.Decode(wi)
 	if res.Fatal != "" || !res.Clean() {
 		fail("copy-accounting", "pages of the copy are not all accounted for: %s", res.ProblemString())
